@@ -25,6 +25,13 @@ a device model applies (PC-E500 default, IQ-7000: wake event on a new press, no 
 register), with "injected taps" bursts, and `irq_count` is observed; operations the keyboard rejects (unknown key,
 foreign port) are interleaved and must leave no trace.
 
+Round 5: "chord" histories (1/7) use 9..20 keys with a chord sub-sequence (all columns strobed, every key goes
+down / up between the same two scan ticks), so a single tick produces more transitions than the queue holds; the
+Python matrix / handler models run with generated host observers attached (scan trace hook, KIO trace hook,
+perfetto tracer object: none 1/2, counting only 1/8, raising at generated invocations with a generated exception
+type 3/8) -- the host catches an observer fault that comes out of an operation and carries on; a tick that ended
+that way is a scan tick of the history that returned no events.
+
 Oracle: history invariants only (c14_hist.judge) -- no cross-model verdict; thresholds, polarity, capacity and
 initial strobe registers are read back from the object under test.
 """
@@ -49,7 +56,12 @@ RULE = ("seeded histories (<= 120..300 ops) over press/release/strobe writes/sca
         "machine (same, plus one scan per executed instruction; generated interrupt mask with the KEY bit clear, "
         "1/4 of the histories with polling-firmware acknowledges of ISR bit 2 as instructions). Rust models run under "
         "a generated device keyboard configuration (default 4/6, IQ-7000 1/6, raw KIL 1/6); injected-tap bursts and "
-        "rejected operations (unknown key / foreign port) are interleaved. Non-trivial = the model produced >= 1 debounced "
+        "rejected operations (unknown key / foreign port) are interleaved. Round 5: 1/7 of the histories are chord "
+        "histories (9..20 keys, chord sub-sequences: every key pressed / released between the same two ticks under an "
+        "all-columns strobe; label hist:chord-keys(>=9), non-trivial for the class = "
+        "saw:tick-with-more-events-than-capacity); the Python matrix and handler run with generated host observers "
+        "(scan trace hook / KIO hook / tracer object; none 1/2, quiet 1/8, raising at generated invocations 3/8; labels "
+        "py-observers:*, non-trivial for the class = saw:observer-raised-inside-event-tick). Non-trivial = the model produced >= 1 debounced "
         "press event and the history has two held keys sharing a row, a strobe change while a key is held, or a "
         "queue overflow; distinct = hash of (model, configuration, operation list).")
 
@@ -96,6 +108,29 @@ def _strobe_ops(cols: List[int], active_high: bool, st: Stream, both: bool = Tru
     return ops
 
 
+OBSERVER_EXC = ("RuntimeError", "ValueError", "KeyError", "OSError", "ZeroDivisionError", "ObserverDown")
+
+
+def gen_observers(st: Stream) -> Optional[Dict[str, Any]]:
+    """Host-side observers attached to the Python matrix: which of the three attachment points are used, whether
+    the KIO hook claims to have handled the record, and at which of its invocations (counted over all attachment
+    points, modulo 64) the observer raises, with which exception type.  None = nothing attached (1/2)."""
+    r = st.below(8)
+    if r < 4:
+        return None
+    hooks = [hk for hk in ("scan", "kio", "perf") if st.chance(1, 2)]
+    if "scan" not in hooks and not st.chance(1, 3):
+        hooks.insert(0, "scan")
+    if not hooks:
+        hooks = ["scan"]
+    spec: Dict[str, Any] = {"hooks": hooks, "handled": st.chance(1, 2), "exc": st.below(len(OBSERVER_EXC)),
+                            "raise_at": []}
+    if r >= 5:   # 3/8 of the histories: a flaky observer
+        dens = st.choice((2, 3, 3, 5, 16))
+        spec["raise_at"] = [i for i in range(64) if st.chance(1, dens)]
+    return spec
+
+
 def gen_history(st: Stream, max_ops: int) -> Dict[str, Any]:
     km = sorted(keymap())
     cfg: Dict[str, Any] = {
@@ -115,7 +150,13 @@ def gen_history(st: Stream, max_ops: int) -> Dict[str, Any]:
     timer_ticks = st.chance(1, 2)      # Rust flavour of a tick: TimerContext path or direct scan_tick
     P, R = cfg["press_threshold"], cfg["release_threshold"]
 
-    nkeys = 2 + st.below(5)
+    # round 5: "chord" histories -- more keys than the queue has entries (9..20), so that one scan tick can produce
+    # more debounce transitions than the queue's capacity (an all-columns "any key?" probe with a hand on the keys)
+    chord = st.chance(1, 7)
+    nkeys = (9 + st.below(12)) if chord else (2 + st.below(5))
+    # round 5: host observers of the Python matrix (scan trace hook / KIO trace hook / perfetto tracer object -- the
+    # attributes pce500/emulator.py installs), counting only or raising at generated invocations
+    cfg["observers"] = gen_observers(st)
     keys: List[int] = [st.choice(km)]
     while len(keys) < nkeys:
         base = st.choice(keys)
@@ -186,7 +227,7 @@ def gen_history(st: Stream, max_ops: int) -> Dict[str, Any]:
         ops.extend(_strobe_ops(cols, ah, st))
 
     while len(ops) < max_ops:
-        r = st.below(236)
+        r = st.below(272 if chord else 236)
         if r < 24:
             strobe_some()
         elif r < 54:
@@ -325,6 +366,29 @@ def gen_history(st: Stream, max_ops: int) -> Dict[str, Any]:
                     ticks(1)
                 ops.append(["inject", k, 1])
                 held.discard(k)
+        elif r >= 236:
+            # chord: many keys go down (and up) between the same two scan ticks while the firmware strobes every
+            # column / every column in use -- one tick carries up to len(keys) transitions
+            r2 = st.below(4)
+            ops.extend(_strobe_ops(list(range(11)) if r2 < 2 else (list(range(16)) if r2 == 2 else cols), ah, st))
+            if st.chance(1, 3):
+                ops.append(["consume", 0])
+            for k in keys:
+                if k not in held and not st.chance(1, 10):
+                    ops.append(["press", k])
+                    held.add(k)
+            ticks(P + st.below(2))
+            if st.chance(1, 3):
+                ops.append(["kil", 0])
+            if not st.chance(1, 4):
+                if st.chance(1, 2):
+                    # the columns lose their strobe together
+                    ops.extend(_strobe_ops([], ah, st))
+                for k in keys:
+                    if k in held and not st.chance(1, 10):
+                        ops.append(["release", k])
+                        held.discard(k)
+                ticks(R + st.below(2))
         elif r >= 232:
             # an operation the keyboard rejects (unknown key, a port that is not a keyboard register): no trace
             ops.append(["bad", st.choice(("press", "release", "inject", "port-read", "port-write")), st.below(64)])
@@ -458,6 +522,57 @@ def _py_bad(h: Any, m: Any, kind: str, x: int) -> bool:
     return not (h or m).press_key(name)
 
 
+class ObserverDown(Exception):
+    """An observer that is being torn down (a plain Exception subclass)."""
+
+
+class _Observers:
+    """Generated host observers of the Python matrix (see gen_observers).  They observe nothing the oracle uses;
+    they only count their invocations and raise where the generated schedule says so."""
+
+    def __init__(self, spec: Dict[str, Any]) -> None:
+        self.hooks = list(spec.get("hooks") or [])
+        self.handled = bool(spec.get("handled"))
+        self.raise_at = {int(i) % 64 for i in spec.get("raise_at") or []}
+        name = OBSERVER_EXC[int(spec.get("exc", 0)) % len(OBSERVER_EXC)]
+        self.exc_type = ObserverDown if name == "ObserverDown" else getattr(__import__("builtins"), name)
+        self.calls = 0
+        self.raises = 0
+        self.raised: List[BaseException] = []
+
+    def _hit(self) -> None:
+        i = self.calls
+        self.calls += 1
+        if (i % 64) in self.raise_at:
+            exc = self.exc_type("C14 generated observer fault")
+            self.raises += 1
+            self.raised.append(exc)
+            raise exc
+
+    def owns(self, exc: BaseException) -> bool:
+        return any(exc is e for e in self.raised)
+
+    # the three call shapes the matrix uses
+    def scan_hook(self, col: int, row: int, pressed: bool) -> None:
+        self._hit()
+
+    def kio_hook(self, name: str, kol: int, koh: int, kil: int, pc: Any = None) -> bool:
+        self._hit()
+        return self.handled
+
+    def instant(self, *args: Any, **kwargs: Any) -> None:     # perfetto tracer shape
+        self._hit()
+
+    def attach(self, matrix: Any) -> None:
+        # the attachment points pce500/emulator.py uses on the handler's matrix
+        if "scan" in self.hooks:
+            matrix._trace_hook = self.scan_hook
+        if "kio" in self.hooks:
+            matrix._kio_trace_hook = self.kio_hook
+        if "perf" in self.hooks:
+            matrix._perf_tracer = self
+
+
 def exec_py(case: Dict[str, Any]) -> Tuple[Dict[str, Any], List[Dict[str, Any]]]:
     from pce500 import keyboard_matrix as KM
 
@@ -481,7 +596,10 @@ def exec_py(case: Dict[str, Any]) -> Tuple[Dict[str, Any], List[Dict[str, Any]]]
         m.release_threshold = int(cfg["release_threshold"])
         m.repeat_delay = int(cfg["repeat_delay"])
         m.repeat_interval = int(cfg["repeat_interval"])
-    calls: List[List[Any]] = []
+    observers = _Observers(cfg["observers"]) if cfg.get("observers") else None
+    if observers is not None:
+        observers.attach(m)
+    calls: List[Tuple[List[Any], bool]] = []
     # Observation only: lets us see the ticks performed inside a KIL read.  The wrapper sits on the object the
     # history talks to: for the handler model that is PCE500KeyboardHandler.scan_tick (the tick entry point the
     # emulator calls once per instruction and the KIL read calls internally) -- every call of it IS a scan tick of
@@ -490,8 +608,15 @@ def exec_py(case: Dict[str, Any]) -> Tuple[Dict[str, Any], List[Dict[str, Any]]]
     orig_scan = tick_owner.scan_tick
 
     def recording_scan_tick() -> Any:
-        ev = orig_scan()
-        calls.append(list(ev or []))
+        try:
+            ev = orig_scan()
+        except Exception as exc:
+            if observers is not None and observers.owns(exc):
+                # the tick was started and a generated observer fault came out of it: it is a scan tick of the
+                # history that handed no events to its caller
+                calls.append(([], True))
+            raise
+        calls.append((list(ev or []), False))
         return ev
 
     tick_owner.scan_tick = recording_scan_tick
@@ -508,40 +633,54 @@ def exec_py(case: Dict[str, Any]) -> Tuple[Dict[str, Any], List[Dict[str, Any]]]
         v = o[0]
         rec: Dict[str, Any] = {"verb": v, "args": list(o[1:])}
         del calls[:]
-        if v == "press":
-            (h or m).press_key(names[o[1]])
-        elif v == "release":
-            (h or m).release_key(names[o[1]])
-        elif v == "kol":
-            if h is not None:
-                h.handle_register_write(0xF0, o[1])
+        n_calls, n_raises = (observers.calls, observers.raises) if observers is not None else (0, 0)
+        try:
+            if v == "press":
+                (h or m).press_key(names[o[1]])
+            elif v == "release":
+                (h or m).release_key(names[o[1]])
+            elif v == "kol":
+                if h is not None:
+                    h.handle_register_write(0xF0, o[1])
+                else:
+                    m.write_kol(o[1])
+            elif v == "koh":
+                if h is not None:
+                    h.handle_register_write(0xF1, o[1])
+                else:
+                    m.write_koh(o[1])
+            elif v == "scan":
+                (h or m).scan_tick()
+            elif v == "kil":
+                rec["kil"] = int(h.handle_register_read(0xF2)) if h is not None else int(m.read_kil())
+            elif v == "peek":
+                rec["kil"] = int(h.peek_keyboard_input()) if h is not None else int(m.peek_kil())
+            elif v == "inject":
+                m.inject_event(names[o[1]], release=bool(o[2]))
+                rec["injected"] = True
+            elif v == "consume":
+                (h or m).consume_pending_events()
+                rec["consumed"] = True
+            elif v == "pop":
+                rec["popped"] = m.pop_fifo()
+                rec["consumed"] = True
+            elif v == "bad":
+                rec["rejected"] = _py_bad(h, m, o[1], int(o[2]))
             else:
-                m.write_kol(o[1])
-        elif v == "koh":
-            if h is not None:
-                h.handle_register_write(0xF1, o[1])
-            else:
-                m.write_koh(o[1])
-        elif v == "scan":
-            (h or m).scan_tick()
-        elif v == "kil":
-            rec["kil"] = int(h.handle_register_read(0xF2)) if h is not None else int(m.read_kil())
-        elif v == "peek":
-            rec["kil"] = int(h.peek_keyboard_input()) if h is not None else int(m.peek_kil())
-        elif v == "inject":
-            m.inject_event(names[o[1]], release=bool(o[2]))
-            rec["injected"] = True
-        elif v == "consume":
-            (h or m).consume_pending_events()
-            rec["consumed"] = True
-        elif v == "pop":
-            rec["popped"] = m.pop_fifo()
-            rec["consumed"] = True
-        elif v == "bad":
-            rec["rejected"] = _py_bad(h, m, o[1], int(o[2]))
-        else:
-            raise HarnessError(f"C14: op {v!r} is not defined for model {model}")
-        rec["ticks"] = [{"certain": True, "events": [_ev_dict(e) for e in evs]} for evs in calls]
+                raise HarnessError(f"C14: op {v!r} is not defined for model {model}")
+        except HarnessError:
+            raise
+        except Exception as exc:
+            if observers is None or not observers.owns(exc):
+                raise
+            # a generated observer fault came out of the operation: the host logs it and carries on
+            rec["observer_fault"] = True
+            rec.pop("kil", None)
+        if observers is not None:
+            rec["observer_calls"] = observers.calls - n_calls
+            rec["observer_raises"] = observers.raises - n_raises
+        rec["ticks"] = [{"certain": True, "events": [_ev_dict(e) for e in evs], "observer_fault": fault}
+                        for evs, fault in calls]
         rec["fifo"] = snapshot()
         obs.append(rec)
     return info, obs
@@ -799,15 +938,15 @@ def normalise_rs(case: Dict[str, Any], res: Dict[str, Any]) -> Tuple[Dict[str, A
             n = int(ret.get("n", 0))
             if n == 0:
                 evs: Optional[List[Dict[str, Any]]] = []
-            elif n <= len(after):
-                evs = [{"code": b & 0x7F, "release": bool(b & 0x80), "repeat": None} for b in after[len(after) - n:]]
             elif n > cap:
                 evs = None  # more events in one tick than the queue can show
+            elif n <= len(after):
+                evs = [{"code": b & 0x7F, "release": bool(b & 0x80), "repeat": None} for b in after[len(after) - n:]]
             else:
                 evs = None
                 rec["adapter_violation"] = ("fifo", "scan reported more new events than the queue holds afterwards",
                                             f"n={n} before={fifo} after={after}")
-            rec["ticks"] = [{"certain": True, "events": evs}]
+            rec["ticks"] = [{"certain": True, "events": evs, "n_events": n}]
         elif v == "kil":
             kv = ret.get("kil")
             rec["kil"] = None if kv is None else int(kv)
@@ -889,9 +1028,20 @@ def _labels(case: Dict[str, Any], facts: Dict[str, Any], viols: List[Violation])
                     ("cpu_strobe_stores", "cpu-strobe-store"), ("cpu_wide_strobe_stores", "cpu-wide-strobe-store"),
                     ("keyi_clears", "keyi-cleared"), ("keyi_rerises", "keyi-rise-after-clear"),
                     ("wake_events", "wake-event"), ("inject_fresh_press", "inject-press-of-unheld-key"),
-                    ("full_queue", "queue-full"), ("rejected_ops", "rejected-op")):
+                    ("full_queue", "queue-full"), ("rejected_ops", "rejected-op"),
+                    ("big_ticks", "tick-with-more-events-than-capacity"), ("multi_event_ticks", "tick-with-5+-events"),
+                    ("observer_calls", "observer-invoked"), ("observer_raises", "observer-raised"),
+                    ("observer_raises_in_tick", "observer-raised-inside-event-tick")):
         if facts[f]:
             lb.append(f"saw:{name}")
+    if facts.get("keys", 0) >= 9:
+        lb.append("hist:chord-keys(>=9)")
+    if case["model"] in ("py-matrix", "py-handler"):
+        ob = case["cfg"].get("observers")
+        lb.append("py-observers:" + ("none" if not ob else ("flaky" if ob.get("raise_at") else "quiet")))
+        if ob:
+            for hk in ob.get("hooks") or []:
+                lb.append(f"py-observer-hook:{hk}")
     mode = case["cfg"].get("kbd_mode") or []
     if case["model"] in ("rs", "rs-cpu"):
         lb.append("rs-kbd-mode:" + ("+".join(mode) if mode else "default"))
@@ -986,6 +1136,13 @@ ASSUMPTIONS = [
     "consumption of the queue; timers are off and the KEY bit of IMR is clear (straight-line program); ISR bit 2 is "
     "sampled at instruction boundaries and judged against the machine's _kb_irq_enabled (a generated configuration)",
     "py-handler: every call of PCE500KeyboardHandler.scan_tick (explicit, or inside a KIL read) is a scan tick",
+    "host observers (Python matrix / handler models): KeyboardMatrix._trace_hook, _kio_trace_hook and _perf_tracer -- "
+    "the attributes pce500/emulator.py attaches -- are observers: whether they are attached, what the KIO hook returns "
+    "and whether they raise (Exception subclasses only) is not part of the history; the host catches a generated "
+    "observer fault that escapes an operation and carries on; a scan tick that ended with such a fault is a scan tick "
+    "of the history that handed no events to its caller (afterwards every key's grammar position is resynchronised)",
+    "a Rust scan tick that reports more new events than the queue's capacity has unobservable events; the queue must "
+    "be within capacity and full (>= capacity-1) afterwards",
     "Rust scan_enabled=false, Python scan_enabled=False / KSD masking / release_all_keys are not explored",
 ]
 
